@@ -60,6 +60,14 @@ Definition is_char_boundary (s : bytes) (i : Z) : bool :=
 Definition slice_to (s : bytes) (n : Z) : option bytes :=
   if is_char_boundary s n then Some (firstn (Z.to_nat n) s) else None.
 
+(** [RowNormalizer::truncate_at_char_boundary]: the longest prefix of at most [n] bytes that ends on
+    a character boundary ([end = min n len; while !is_char_boundary(end) { end -= 1 }]; 0 is a boundary) *)
+Fixpoint back_to_boundary (s : bytes) (e : nat) : bytes :=
+  if is_char_boundary s (Z.of_nat e) then firstn e s
+  else match e with O => [] | S e' => back_to_boundary s e' end.
+Definition truncate_at_char_boundary (s : bytes) (n : Z) : bytes :=
+  back_to_boundary s (Z.to_nat (Z.min n (blen s))).
+
 Definition char_count (s : bytes) : Z := Z.of_nat (length (filter (fun b => negb (is_cont b)) s)).
 
 (** [s.chars().take(n).collect()]: the bytes of the first [n] characters *)
